@@ -44,7 +44,9 @@ impl Parameters {
         let doc = docs.get(0).ok_or_else(
             || ParameterError::ParseError("No YAML document found (empty file?)".to_string()))?;
         let params = &doc["opw_kinematics_geometric_parameters"];
-        let dof = params["dof"].as_i64().unwrap_or(6) as i8;
+        // dof is documented (and written by to_yaml) at the top level;
+        // it is also accepted inside the geometric parameters block.
+        let dof = doc["dof"].as_i64().or_else(|| params["dof"].as_i64()).unwrap_or(6) as i8;
         let mut sign_corrections = Self::read_sign_corrections(&doc["opw_kinematics_joint_sign_corrections"])?;
         if dof == 5 {
             // Block J6 at 0 by default for 5DOF robot.
